@@ -51,6 +51,7 @@ type (
 )
 
 type Clause struct {
+	Tmpl bool // came from a forall-funcs template
 	Optional bool
 	Kind  string // requires ensures safe assigns pure inline trusted invariant decreases loopdecreases ...
 	Label string
@@ -143,7 +144,7 @@ var clauseKeywords = map[string]bool{
 	"trusted": true, "loop": true, "decreases": true, "props": true, "noinline": true, "callreq": true,
 	"mustcall": true, "callassert": true, "havoc": true, "replay": true, "bounded": true, "nofork": true,
 	"ghost-effect": true, "known": true, "assume-ensures": true, "opaque": true, "paths": true,
-	"timeout": true, "unroll": true, "nosafe": true, "calls": true, "reads": true, "typeinv": true, "inline-calls": true, "no-visibility-frame": true, "count-calls": true, "callers": true, "rank": true, "aftercall": true, "stable": true, "only-writers": true, "by-induction": true, "dispatch": true, "forget": true, "preserves": true,
+	"timeout": true, "unroll": true, "nosafe": true, "calls": true, "reads": true, "typeinv": true, "inline-calls": true, "no-visibility-frame": true, "count-calls": true, "callers": true, "rank": true, "aftercall": true, "stable": true, "only-writers": true, "by-induction": true, "terminates": true, "dispatch": true, "forget": true, "preserves": true,
 }
 
 // loadSpecs reads every zz_verif_contracts*.go under root.
@@ -335,6 +336,10 @@ func parseSpecFile(path, pkg string) (*SpecFile, error) {
 					}
 				}
 				cl.Loop = n
+				if strings.HasSuffix(parts[1], "?") {
+					parts[1] = strings.TrimSuffix(parts[1], "?")
+					cl.Optional = true
+				}
 				cl.Kind = "loop-" + parts[1]
 				cl.Text = parts[2]
 				if parts[1] == "assigns" {
@@ -844,4 +849,14 @@ func (c *Contract) preserved() []string {
 		out = append(out, cl.Args...)
 	}
 	return out
+}
+
+// usesAtLoop: some clause mentions atloop(N, e) (the value of e when loop N's current iteration began).
+func (c *Contract) usesAtLoop() bool {
+	for _, cl := range c.Clauses {
+		if strings.Contains(cl.Text, "atloop(") {
+			return true
+		}
+	}
+	return false
 }
